@@ -18,7 +18,7 @@ def _canon(x):
     if isinstance(x, dict):
         out = {}
         for k, v in x.items():
-            if k in ("span", "fn_span", "obligations", "threaded_from"):
+            if k in ("span", "fn_span", "obligations", "resolved_obligations", "threaded_from"):
                 continue
             out[k] = _canon(v)
         return out
